@@ -12,6 +12,10 @@ CACHE = os.path.join(VERIF, ".cache")
 HARNESSES = {
     "C12": [("trim_cr.rs", "trim_cr_contract", "lib::trim_cr", "bounded: slice length <= 8, arbitrary bytes (function inspects only the last byte)")],
     "C13": [("trim_cr.rs", "trim_cr_contract", "lib::trim_cr", "bounded: slice length <= 8, arbitrary bytes (function inspects only the last byte)")],
+    "C09": [("policy.rs", "std_policy_formula", "policy::StdPolicy::grow_to", "complete: loop-free, every current size <= isize::MAX/2"),
+            ("policy.rs", "double_until_formula", "policy::DoubleUntil::grow_to", "complete: loop-free, every current size and threshold <= isize::MAX/2"),
+            ("policy.rs", "double_until_limited_formula", "policy::DoubleUntilLimited::grow_to",
+             "complete: loop-free, every current size and threshold <= isize::MAX/2, every limit")],
 }
 
 
@@ -20,7 +24,7 @@ def run_for(prop, repo, tier):
     if not hs:
         return dict(harnesses=[], failed=[])
     files = sorted({h[0] for h in hs})
-    lib = open(os.path.join(repo, "src/lib.rs")).read()
+    lib = open(os.path.join(repo, "src/lib.rs")).read() + open(os.path.join(repo, "src/policy.rs")).read()
     key = hashlib.sha256((lib + "".join(open(os.path.join(KANI_DIR, f)).read() for f in files)).encode()).hexdigest()[:20]
     os.makedirs(CACHE, exist_ok=True)
     cpath = os.path.join(CACHE, "kani_%s.json" % key)
@@ -48,7 +52,7 @@ def run_for(prop, repo, tier):
         out = {}
         for hf in files:
             pass
-        names = sorted({h[1] for h in HARNESSES_ALL()})
+        names = sorted({h[1] for h in HARNESSES_ALL() if h[0] in files})
         results = {}
         for name in names:
             r = subprocess.run(["cargo", "kani", "--harness", name], cwd=tmp, env=env, stdout=subprocess.PIPE, stderr=subprocess.STDOUT, text=True, timeout=1800)
@@ -87,6 +91,14 @@ def decode_cex(name, vals):
         buf = [v[0] for v in vals[:8]]
         ln = int.from_bytes(bytes(vals[8]), "little")
         return dict(function="trim_cr", line=buf[:ln])
+    def num(v):
+        return int.from_bytes(bytes(v), "little")
+    if name == "std_policy_formula" and len(vals) >= 1:
+        return dict(function="StdPolicy::grow_to", current_size=num(vals[0]))
+    if name == "double_until_formula" and len(vals) >= 2:
+        return dict(function="DoubleUntil::grow_to", current_size=num(vals[0]), double_until=num(vals[1]))
+    if name == "double_until_limited_formula" and len(vals) >= 3:
+        return dict(function="DoubleUntilLimited::grow_to", current_size=num(vals[0]), double_until=num(vals[1]), limit=num(vals[2]))
     return dict(raw=vals)
 
 
